@@ -129,6 +129,7 @@ def judge_sqlite(case, obs):
     model = {'committed': committed, 'parent_open': state in OPEN_STATES or state == 'thread_open_write',
              'pending': ['pu'] if state in ('open_write', 'open_dirty') else []}
     child_in_inherited = state in OPEN_STATES
+    lock_at_fork = state in ('open_write', 'thread_open_write')
 
     def child_ops(records, who, fresh):
         # fresh: the process is not inside a session cache inherited from the parent (pony caches query results per
@@ -140,7 +141,10 @@ def judge_sqlite(case, obs):
                 continue
             # a writer may be refused as locked while the parent's session is open, or (grandchild) while the forking
             # child lives inside the inherited, never ending session and may hold a transaction of its own
-            may_lock = model['parent_open'] or (child_in_inherited and who != 'C')
+            # ... or for ever when a connection of the forking process held SQLite's write lock at the fork: SQLite keeps
+            # POSIX locks per process and inode, so the inherited (never used, never closed) connection copy makes every
+            # new connection of the forked process see the file as reserved (a SQLite fork hazard, not a pony statement)
+            may_lock = model['parent_open'] or lock_at_fork or (child_in_inherited and who != 'C')
             if op == 'read':
                 if not r['ok']:
                     # a process that lives inside the inherited (never ending) db_session carries session state across
